@@ -145,6 +145,45 @@ def mk_recognise(L):
             'functions': ['emmet.abbreviation.tokenizer.repeater_number', 'repeater', 'tokenize']}
 
 
+def mk_digits(form):
+    """numbering / repeater token whose digits are a symbolic string (1..3 decimal digits)"""
+    from emmet.abbreviation import tokenize
+    import emmet
+    from vf.pipe import make_config
+
+    def h(k: int, d: str):
+        if not (1 <= k <= 3) or not (1 <= len(d) <= 3):
+            return 'skip'
+        ok = True
+        for c in d:
+            ok = ok & (ord(c) >= 48) & (ord(c) <= 57)
+        if not ok:
+            return 'skip'
+        n = int(d)
+        if form == 'repeat':
+            if k != 1:
+                return 'skip'
+            toks = tokenize('ea*' + d)
+            t = toks[-1]
+            return True if (t.type == 'Repeater' and t.count == n and not t.implicit and t.end == 3 + len(d)) \
+                else 'repeater_count_differs_from_digits'
+        src = 'ea' + '$' * k + '@' + ('-' if form == 'reverse' else '') + d
+        toks = tokenize(src)
+        t = toks[-1]
+        if t.type != 'RepeaterNumber' or t.end != len(src) or t.start != 2:
+            return 'numbering_span'
+        if t.size != k or bool(t.reverse) != (form == 'reverse') or t.base != n or t.parent != 0:
+            return 'numbering_fields_differ_from_digits'
+        return True
+
+    def twin(k: int, d: str):
+        r = h(k, d)
+        return r if r == 'skip' else 'twin'
+    return {'fn': h, 'twin': twin, 'witnesses': [{'k': 1, 'd': '3'}, {'k': 2 if form != 'repeat' else 1, 'd': '10'}],
+            'assumptions': ['form %s: `ea` + 1..3 `$` + `@` (+ `-`) + 1..3 symbolic decimal digits, or `ea*` + digits' % form],
+            'functions': ['emmet.abbreviation.tokenizer.repeater_number', 'repeater', 'stringify.RepeaterNumber']}
+
+
 # ------------------------------------------------------------------ C02-c pipeline
 # template language: ('el', name, rep, [children], attr, text) | ('grp', rep, [children])
 # `$` inside name/attr/text marks a counter; rep is None | 'N' | 'M'
@@ -330,6 +369,9 @@ def jobs(tier):
     for L in range(1, (3 if q else 4) + 1):
         out.append(Job('C02-b/recognise/len=%d' % L, 'vf.props.c02:mk_recognise', dict(L=L), shape='W',
                        bound='len=%d over $@-^*0-9a' % L, budget=900 if q else 3000, weight=8 ** L))
+    for form in ('forward', 'reverse', 'repeat'):
+        out.append(Job('C02-b/digits/%s' % form, 'vf.props.c02:mk_digits', dict(form=form), shape='H',
+                       bound='1..3 symbolic digits', budget=900, weight=100))
     nmax, smax, bmax, lmax = (3, 3, 20, 7) if q else (4, 4, 1000, 12)
     for ti in range(len(TEMPLATES)):
         both = '*901' in to_abbr(TEMPLATES[ti]) and '*902' in to_abbr(TEMPLATES[ti])
